@@ -699,13 +699,13 @@ def check_C15():
     rc, rep = harness_run(vh, ["traversal-replay", em["out"], "@REPORT"], timeout=3000)
     cov = merge_cov(model, em, rep, {
         "rule": "every DAG over 4 nodes (ordered links to later nodes only, <= 3 links at the root and <= 2 elsewhere, repeats and shared subtrees, dag-cbor inner nodes and raw leaves) x selector "
-                "{explore-all-recursive, depth-limited 1..3} x link-visit-once on/off x link budget {none, 1, 3}, with paddings and index codec / none varied per case; each through v2 NewSelectiveWriter "
+                "{explore-all-recursive, depth-limited 1..3, field paths <<1>>, <<2>>, <<1,1>>, <<2,1>> ending in a matcher} x link-visit-once on/off x link budget {none, 1, 3}, with paddings and index codec / none varied per case; each through v2 NewSelectiveWriter "
                 "(both passes recorded), TraverseV1, TraverseToFile, root-module SelectiveCar Write / Prepare (Size, Cids) / Dump with block callbacks; the observed load sequence of the wrapped link system "
                 "is the oracle for 'exactly the loaded blocks, once, first-visit order'; sizes, returned counts, Dump==Write, callback offsets/sizes and the index are checked; the model's Loads is compared "
                 "with the observed loads (drift)",
         "exhaustive": True, "explanation": "TLC evaluates the DFS model on all bounded DAGs; SizeAgreement (counted = written) is violated in the model exactly when a load repeats: %s" % size.get("violated")})
     finish("C15", "model_checking", cov, rep["violations"] or [], inconclusive=rep.get("inconclusive") or None, drift=rep.get("model_drift") or None,
-           assumptions=["go-ipld-prime's selector semantics beyond explore-all / depth-limited recursion are not modelled", "a writer that returns an error early (budget exceeded) has not output a CAR"])
+           assumptions=["go-ipld-prime's selector semantics beyond explore-all, depth-limited recursion and field paths are not modelled (unions, conditions, interpret-as)", "a writer that returns an error early (budget exceeded) has not output a CAR"])
 
 
 def check_C09():
